@@ -5,7 +5,8 @@ the kind tables (remap_to -> destination coordinates in both coordinate systems,
 the gathered indices come from a query of a tree built over the SOURCE grid's elements of the data's kind at the DESTINATION coordinates, requested with reconstruct=True;
 the gather indexes the last data axis; IDW weights are non-negative, divided by their own sum along the neighbour axis, and the result is the weighted sum along that axis;
 the result's last dimension is the destination's and it is attached to the destination grid.
-every return of the four accessor methods is the remap implementation's result (an identity shortcut only for the very same Grid object, not for grids that compare equal); inverse-distance results keep their float dtype in the wrappers too."""
+every return of the four accessor methods is the remap implementation's result (an identity shortcut only for the very same Grid object, not for grids that compare equal); inverse-distance results keep their float dtype in the wrappers too.
+Dimension names beat lengths when data variables are mapped onto the grid (_map_dims_to_ugrid)."""
 
 import ast
 
